@@ -111,6 +111,30 @@ impl Directive {
             messages,
         } = context;
 
+        if let DirectiveOps::OpList(values) = opts {
+            let needs_operand = matches!(
+                self,
+                Directive::Undef
+                    | Directive::Byte
+                    | Directive::Org
+                    | Directive::Device
+                    | Directive::Include
+                    | Directive::IncludePath
+                    | Directive::If
+                    | Directive::ElIf
+                    | Directive::IfDef
+                    | Directive::IfNDef
+                    | Directive::Define
+                    | Directive::Macro
+                    | Directive::Message
+                    | Directive::Warning
+                    | Directive::Error
+            );
+            if needs_operand && values.is_empty() {
+                bail!("missing operand for .{}, {}", self, point);
+            }
+        }
+
         match self {
             Directive::Db | Directive::Dw | Directive::Dd | Directive::Dq => {
                 if let DirectiveOps::OpList(args) = opts {
